@@ -168,7 +168,7 @@ func c03Num(rt *rapid.T, l string) string {
 	k := rapid.IntRange(0, 9).Draw(rt, l+"k")
 	switch {
 	case k < 4:
-		return gen.Pick(rt, l, "0", "1", "2", "9", "10", "11", "99", "100", "999", "1000", "65535", "2147483647")
+		return gen.Pick(rt, l, "0", "1", "2", "9", "10", "11", "99", "100", "999", "1000", "65535", "2147483647", "2147483648", "2147483646")
 	case k < 8:
 		return gen.Pick(rt, l, "0", "1", "2", "3", "5", "9", "10")
 	default:
